@@ -42,7 +42,14 @@ def run_step(context):
     """
     logger.debug("started")
 
-    ObjectRewriterStep(__name__, 'fileFormatToml', context).run_step(
-        TomlRepresenter())
+    step = ObjectRewriterStep(__name__, 'fileFormatToml', context)
+    # toml is utf-8 by definition & the representer deals in bytes, so the
+    # configured default text encoding doesn't apply here. Only an explicit
+    # encoding input goes through, for open() to refuse.
+    explicit = step.formatted_root.get('encoding')
+    step.encoding_in = step.formatted_root.get('encodingIn', explicit)
+    step.encoding_out = step.formatted_root.get('encodingOut', explicit)
+
+    step.run_step(TomlRepresenter())
 
     logger.debug("done")
